@@ -141,7 +141,10 @@ CHECKS = {
           "blocking receive statement with an empty inbox (it could then only leave by its timeout or unrelated traffic). z3 finds the schedule in "
           "about half a minute -- the waiter re-enters serve() between the other thread's notify_all() and _dispatch() -- and the schedule is "
           "replayed deterministically on real threads with the real code, where a virtual-time channel records that the waiter would block. This is "
-          "a genuine defect of the pinned tree, recorded as a known finding (no small safe repair); a stall of any other shape would still fail the check."),
+          "a genuine defect of the pinned tree, recorded as a known finding (no small safe repair). A second query asks separately for stalls in which the "
+          "waiter's result was already there when it took the receive lock: that shape exists too (the waiter tests readiness, is pre-empted across "
+          "the other thread's receive AND dispatch, then blocks) and is recorded as a second finding of the same root cause; a stall of any other "
+          "shape would still fail the check."),
     note=("Trusted as for C13. 1 waiter + 1 background serving thread (2 serve iterations) + peer, 60 statement-steps, <=2 pre-emptions quick / "
           "exhaustive thorough. Only the robust stall shape (blocked in the receive statement holding the receive lock) is queried; the "
           "asleep-in-Condition.wait shape would be an artefact of cutting the background thread off."),
